@@ -346,7 +346,8 @@ fn main() {
             let plen = ch.trace.iter().rposition(|p| p.chosen != 0).map(|i| i + 1).unwrap_or(0);
             states.fetch_add((ch.trace.len() - plen) as u64 + 1, Ordering::Relaxed);
             transitions.fetch_add(ch.trace[plen..].iter().map(|p| p.n as u64).sum::<u64>(), Ordering::Relaxed);
-            if out.tick_while_running && out.ignorable_seen {
+            // (tie schedules are left out of this count: what follows a tie depends on the driver-internal RNG)
+            if out.ties == 0 && out.tick_while_running && out.ignorable_seen {
                 nontrivial.fetch_add(1, Ordering::Relaxed);
             }
             outcomes.lock().unwrap().insert((m, out.result_kind.clone(), out.started));
